@@ -293,11 +293,20 @@ def parse_fields(toks, a, b, typemap, cls):
         if w0 == 'static_assert':
             asserts.append(untok(toks[toks.index(decl[0]):j]))
             continue
-        if w0 in ('static', 'constexpr') and not has_paren and any(x.t == '=' for x in decl):
+        def _eq_before_paren(dd):
+            for x in dd:
+                if x.t == '=': return True
+                if x.t == '(': return False
+            return False
+        if w0 in ('static', 'constexpr') and _eq_before_paren(decl):
             # static constant with in-class initialiser:  static const T name = value;
             eq = next(k2 for k2, x in enumerate(decl) if x.t == '=')
             tys = [x.t for x in decl[:eq - 1] if x.t not in ('static', 'constexpr', 'const', 'inline')]
             val = ''.join(x.t for x in decl[eq + 1:])
+            if tys == ['auto'] and tag_init(val):
+                statics.append(('Tag', decl[eq - 1].t, tag_init(val)))
+                continue
+            val = re.sub(r'\b([A-Za-z_]\w*)\b', lambda m_: (cls + '_' + m_.group(1)) if any(m_.group(1) == st[1] for st in statics) else m_.group(1), val)
             try:
                 cty, _ = map_type(' '.join(tys), typemap)
                 statics.append((cty, decl[eq - 1].t, val))
@@ -353,7 +362,11 @@ def extract_struct(text, name, typemap, packed, cname=None, keep_asserts=True):
                 txt = re.sub(r'sizeof\s*\(\s*(\w+::)*%s\s*\)' % re.escape(name), 'sizeof(%s)' % cname, txt)
                 out.append('_Static_assert' + txt + ';')
     for cty, nm, val in parse_fields.last_statics:
-        out.append('static const %s %s_%s = %s;' % (cty, cname, nm, val))
+        if cty.replace('const ', '') in SCALARS or cty in ('unsigned int', 'unsigned short', 'unsigned char'):
+            # scalar class constants become macros: a C file-scope constant may not be initialised from another object
+            out.append('#define %s_%s ((%s)(%s))' % (cname, nm, cty, val))
+        else:
+            out.append('static const %s %s_%s = %s;' % (cty, cname, nm, val))
     extract_struct.last_statics = [nm for _, nm, _ in parse_fields.last_statics]
     return '\n'.join(out) + '\n', fields
 
@@ -691,8 +704,14 @@ class Body:
                 if a is not None and toks[a].t == '::':
                     b = next_sig(toks, a)
                     if toks[b].k == 'id':
+                        # Class::dataMember (only meaningful inside sizeof)  ->  ((Class*)0)->member
+                        if toks[b].t in self.ctx.get('all_members', {}).get(t.t, {}):
+                            out.append(T('id', '((%s*)0)->%s' % (t.t, toks[b].t)))
+                            i = b + 1
+                            self.fire('R12m')
+                            continue
                         # allow nesting  A::B::C
-                        name = scoped[t.t] + '_' + toks[b].t
+                        name = (scoped[t.t] + '_' + toks[b].t) if scoped[t.t] else toks[b].t
                         c = next_sig(toks, b)
                         while c is not None and toks[c].t == '::':
                             d = next_sig(toks, c)
@@ -969,6 +988,10 @@ class Body:
                     out.append(T('id', '(*%s)' % t.t)); self.fire('R3use'); continue
                 if ctx['cls'] and not ctx['static'] and t.t in members and t.t not in shadow:
                     out.append(T('id', 'self->' + t.t)); self.fire('R2'); continue
+                if ctx['cls'] and ctx['static'] and t.t in members and t.t not in shadow and pt == '(':
+                    pp2 = prev_sig(toks, p)
+                    if pp2 is not None and toks[pp2].t == 'sizeof':
+                        out.append(T('id', '((%s*)0)->%s' % (ctx['cls'], t.t))); self.fire('R2sizeof'); continue
                 if ctx['cls'] and t.t in ctx.get('statics', {}) and t.t not in shadow:
                     out.append(T('id', ctx['statics'][t.t])); self.fire('R2static'); continue
             out.append(t)
@@ -1466,6 +1489,8 @@ def extract_function(fn, unit, repo, filecache, contracts):
         lines = []
         for m in order:
             mt = ctx['members'].get(m, '')
+            if m not in inits and mt in unit.get('default_ctors', {}):
+                lines.append('  %s(&self->%s);   /* default-constructed member */' % (unit['default_ctors'][mt], m))
             if m not in inits and (mt.startswith('vec_') or mt == 'str'):
                 lines.append('  self->%s = (%s){ 0, 0 };   /* default-constructed (empty) container */' % (m, mt))
             if m in inits:
@@ -1498,6 +1523,11 @@ def extract_function(fn, unit, repo, filecache, contracts):
     text = rewrite_views(text, views)
     if '@@' in text:
         raise ExtractionBreak('unresolved marker in %s' % fn['cname'])
+    for lname, lt in ctx['locals'].items():
+        if lt in unit.get('default_ctors', {}) and lname not in ctx['refs']:
+            # R15: a local of class type declared without initialiser runs the default constructor
+            text, nlc = re.subn(r'(\b%s\s+%s\s*;)' % (re.escape(lt), re.escape(lname)), r'\1 %s(&%s);' % (unit['default_ctors'][lt], lname), text)
+            if nlc: body.fire('R15local', nlc)
     if cret != 'void':
         # R16: braced return of an aggregate  ->  C compound literal of the declared return type
         text, nbr = re.subn(r'\breturn\s*\{', 'return (%s){' % cret, text)
@@ -1531,6 +1561,11 @@ def extract_function(fn, unit, repo, filecache, contracts):
     info['lines'] = [pre_text.count('\n') + 1, pre_text.count('\n') + 1 + body_text.count('\n')]
     return sigtxt, ctext, info
 
+def tag_init(init):
+    m = re.fullmatch(r'MakeTag\s*\(\s*"(....)"\s*\)', init.strip())
+    if not m: return None
+    return '{ { ' + ', '.join("'%s'" % ch for ch in m.group(1)) + ' } }'
+
 def extract_global(text, gdef, typemap):
     """constant defined at namespace scope:  const T Class::Name = v;   or   const std::array<T,N> Class::Name{ a, b };"""
     toks = tokenize(text)
@@ -1555,6 +1590,11 @@ def extract_global(text, gdef, typemap):
         init = untok(toks[n:j]).strip()
         if init.startswith('='): init = init[1:].strip()
         cty = gdef['ctype']
+        if cty == 'Tag' and tag_init(init):
+            init = tag_init(init)
+        if cty.startswith('arr_') and init.startswith('"'):
+            # char array initialised from a string literal (the literal's terminator fills the last element)
+            init = '{ ' + init + ' }'
         if cty.startswith('arr_') and init.startswith('{'):
             init = '{ ' + init + ' }'
         init = re.sub(r'\b(\w+)::(\w+)\b', r'\1_\2', init)
